@@ -190,7 +190,7 @@ class LayerInterp(VecInterp):
             f = self.F.funcs.get(c)
             if f is not None and f.d.get("ret", "bool") in ("bool", None) or c.rsplit("::", 1)[-1].startswith(("debug_", "trace_", "test_", "assert_verbose")):
                 return 0
-        if re.search(r"thread::local::LocalKey::<T>::(with|with_borrow|with_borrow_mut)$", c):
+        if re.search(r"thread::local::LocalKey::<[^>]*(<[^>]*>)?>::(with|with_borrow|with_borrow_mut)$", c):
             key = self.operand(t["args"][0])
             if not (isinstance(key, tuple) and key and key[0] == "tls"):
                 raise Undecidable("LocalKey::with on an unknown key")
